@@ -176,3 +176,19 @@ Inductive closure_run (succ : N -> list N) : list N -> list N -> list N -> Prop 
 | cr_visit : forall x pend pend' seen r,
     Permutation pend (x :: pend') -> ~ In x seen ->
     closure_run succ (succ x ++ pend') (x :: seen) r -> closure_run succ pend seen r.
+
+(* FunctionScope._resolve_origin in full: a definer that is not in
+   definition_node_to_value ("maybe from a different scope") aborts the search with
+   EMPTY_ORIGIN -- outcome None; otherwise the visited set.  `known x = false` models
+   `definer not in self.definition_node_to_value`. *)
+Inductive oclosure_run (succ : N -> list N) (known : N -> bool) : list N -> list N -> option (list N) -> Prop :=
+| ocr_done : forall seen, oclosure_run succ known [] seen (Some seen)
+| ocr_skip : forall x pend pend' seen r,
+    Permutation pend (x :: pend') -> In x seen ->
+    oclosure_run succ known pend' seen r -> oclosure_run succ known pend seen r
+| ocr_unknown : forall x pend pend' seen,
+    Permutation pend (x :: pend') -> ~ In x seen -> known x = false ->
+    oclosure_run succ known pend seen None
+| ocr_visit : forall x pend pend' seen r,
+    Permutation pend (x :: pend') -> ~ In x seen -> known x = true ->
+    oclosure_run succ known (succ x ++ pend') (x :: seen) r -> oclosure_run succ known pend seen r.
